@@ -2,14 +2,43 @@
 //@include prelude/head.rs
 verus! {
 //@include prelude/std_string.rs
+//@include prelude/utf8_facts.rs
 
 pub enum Error { IllegalArgument(String) }
 pub type Result<T> = std::result::Result<T, Error>;
 
-//@take src/crypto.rs struct:KeyId
+//@take src/crypto.rs struct:KeyId drop_derives=Clone
+// assumed: the derived Clone is structural
+impl Clone for KeyId {
+    #[verifier::external_body]
+    fn clone(&self) -> (r: Self) ensures r.id() == self.id() { unimplemented!() }
+}
 
 impl KeyId {
+    // type invariant (ghost): a key id is 64 ASCII characters; established by every constructor
+    #[verifier::type_invariant]
+    pub closed spec fn wf(self) -> bool {
+        self.0@.len() == 64 && vstd::utf8::is_ascii_chars(self.0@)
+    }
+    pub closed spec fn id(self) -> Seq<char> { self.0@ }
 //@extract src/crypto.rs impl:KeyId/fn:prefix props=C14
+//@contract ret=r
+    ensures vstd::utf8::encode_utf8(r@) == vstd::utf8::encode_utf8(self.id()).subrange(0, 8),
+//@subst D9 /self\.0\[0\.\.8\]/ => std::slice::SliceIndex::index(0..8, self.0.as_str())
+//@after /pub fn prefix/
+    proof { use_type_invariant(self); fact_ascii_subrange(self.0@, 0, 8); }
+//@end
+}
+
+impl KeyId {
+//@extract src/crypto.rs "impl:FromStr for KeyId/fn:from_str" props=C14
+//@contract ret=r
+    ensures r is Ok ==> r->Ok_0.id() == string@,
+//@before /Ok\(KeyId\(/
+    proof {
+        vstd::string::is_ascii_spec_bytes(string);
+        fact_str_len_fits(string@);
+    }
 //@end
 }
 
